@@ -24,8 +24,8 @@ M = [
  ("C16_unwrap_segment_data", "src/elf/elf.rs", "            let content = file.segment_data(&segment)?;", "            let content = file.segment_data(&segment).unwrap();", None),
  ("C17_parity_inverted", "src/state/memory.rs", "        if stack_layout.len() % 2 == 1 {", "        if stack_layout.len() % 2 == 0 {", None),
  ("C18_return_level_plus", "src/helpers/trace.rs", "                TraceVariant::Return => lvl -= 1,", "                TraceVariant::Return => lvl -= (lvl > 0) as i64,", None),
- ("C19_r13l_missing_from_table", "src/state/registers.rs", "            Register::R13L => SupportedRegister::R13L,\n", "", None),
- ("C20_cdq_consults_rdx", "src/instructions/cdq.rs", "        let edx = if eax & 0x8000_0000 == 0 {\n            0\n        } else {", "        let edx = if eax & 0x8000_0000 == 0 {\n            self.reg_read_64(RDX)? & 1\n        } else {", None),
+ ("C19_retnq_imm16_unimplemented_macro", "src/instructions/ret.rs", "        opcode_unimplemented!(\"instr_retnq_imm16 for Ret\")", "        unimplemented!(\"instr_retnq_imm16 for Ret\")", None),
+ ("C20_cpuid_edx_not_written", "src/instructions/cpuid.rs", "        self.reg_write_32(SupportedRegister::EDX, 0)?;\n", "", None),
 ]
 for name, path, old, new, occ in M:
     p = '/repo/' + path
